@@ -7,7 +7,7 @@
    priority-sorted ANP list (C02_admin_order_irrelevant).  What is only sampled: the real map-iteration
    schedules of the Go runtime in code the mirror abstracts (dot output, exposure tables, Errors() order). *)
 From Coq Require Import List ZArith Bool String Permutation Sorting.Sorted.
-From NP Require Import IntervalSet ConnSet World Eval EvalProofs Build Connlist Diff Format SortGeneric FormatProofs OrderProofs DotProofs XFormat XFormatProofs XFormatMore XFormatMoreProofs DiffDot DiffDotProofs.
+From NP Require Import IntervalSet ConnSet World Eval EvalProofs Build Connlist Diff Format SortGeneric FormatProofs OrderProofs DotProofs XFormat XFormatProofs XFormatMore XFormatMoreProofs DiffDot DiffDotProofs XDot XDotProofs.
 Import ListNotations.
 
 (* sorting strings is a function of the multiset, and any correct sort.Strings computes it *)
@@ -67,6 +67,17 @@ Theorem C08_exposure_json_order_independent es es' xps mid xps' :
   Permutation es es' -> Permutation xps mid -> Forall2 xp_equiv mid xps' -> list_exposure_json es xps = list_exposure_json es' xps'.
 Proof. exact (exposure_json_order_independent es es' xps mid xps'). Qed.
 Print Assumptions C08_exposure_json_order_independent.
+
+(* ... and its dot output (Model/XDot.v, byte-exact too): a function of the multiset of connections, the set of peers, the set of
+   exposed workloads and the multiset of the entries of each - provided the node name of a representative peer determines its
+   label and namespace label, which the check evaluates on every implementation result (nodes_consistentb) *)
+Theorem C08_exposure_dot_order_independent es es' ps ps' xps mid xps' :
+  Permutation es es' -> Permutation ps ps' -> NoDup (map dp_str ps) ->
+  Permutation xps mid -> Forall2 xp_equiv mid xps' ->
+  nodes_consistent (flat_map x_items xps) ->
+  list_exposure_dot es ps xps = list_exposure_dot es' ps' xps'.
+Proof. exact (exposure_dot_order_independent es es' ps ps' xps mid xps'). Qed.
+Print Assumptions C08_exposure_dot_order_independent.
 
 (* sortConnFields uses the unstable sort.Slice on (workload, other end) only: when no two lines of a section share both -
    which the check evaluates on every implementation result - ANY correct sort by that key returns the model's order *)
